@@ -30,7 +30,23 @@ def attr_level(v, params):
     return False
 
 
-def all_attrs_rule(ctx, rep, rule, roots, floor, files=('parser.rs',)):
+def functions_looking_for(ctx, key, files):
+    """Functions with an attribute (list) parameter that mention the attribute-argument name `key` as a string literal
+    (is_ident("key"), get_name_value_meta_items(.., "key", ..), a pattern guard ...) or through a constant whose value is it."""
+    consts = {it['name'] for it in ctx.astq['items'] if it['kind'] in ('const', 'static') and (it.get('strings') or []) == [key]}
+    out = []
+    for f in ctx.astq['functions']:
+        if not any(f['file'].endswith(x) for x in files):
+            continue
+        if not any(is_attr_param(p) or (p.get('ty') or '').replace('syn::', '').lstrip('&').strip() in ('Attribute', 'Meta') for p in f['params']):
+            continue
+        txt = json.dumps(f)
+        if f'"v": "{key}"' in txt or f'\\"{key}\\"' in txt or any(re.search(rf'\b{c}\b', txt) for c in consts):
+            out.append(f)
+    return out
+
+
+def all_attrs_rule(ctx, rep, rule, roots, floor, files=('parser.rs', 'visitors.rs'), keys=()):
     """Every attribute look-up the property depends on examines all attributes of the node: no truncating adapter on
     the attribute stream itself.  `roots` are the look-ups the property's behaviour goes through; the rule covers them
     and every attribute-reading helper they (transitively) delegate to — look-ups serving other properties are not
@@ -39,10 +55,18 @@ def all_attrs_rule(ctx, rep, rule, roots, floor, files=('parser.rs',)):
     by = {}
     for f in fs:
         by.setdefault(f['name'].split('::')[-1], []).append(f)
+    # the look-ups are identified by what they look for (`keys`: attribute-argument names), so that a renamed, merged or
+    # moved look-up function is still covered; the historical names in `roots` are used when they exist
+    by_key = []
+    for key in keys:
+        fk = functions_looking_for(ctx, key, files)
+        if not fk:
+            raise core.Incomplete(f'{rule}: no attribute-reading function looks for `{key}` in {files}')
+        by_key += [f['name'].split('::')[-1] for f in fk]
     missing = [r for r in roots if r not in by]
-    if missing:
+    if missing and not keys:
         raise core.Incomplete(f'{rule}: attribute look-up(s) {missing} not found in {files}')
-    rel, todo = set(), list(roots)
+    rel, todo = set(), [r for r in roots if r in by] + by_key
     while todo:
         nm = todo.pop()
         if nm in rel:
@@ -75,7 +99,8 @@ def all_attrs_rule(ctx, rep, rule, roots, floor, files=('parser.rs',)):
             rep.fail(rule, f"{f['name']}:all-attributes", f"{f['name']} truncates the attribute list itself with `{b['f']}` ({vt.show(b.get('recv'))[:70]}) — an attribute argument placed in a second #[serde(..)]/#[typeshare(..)] attribute (any spelling and order is in scope) is not seen", {'file': f['file'], 'line': b.get('line', f['line'])})
         else:
             rep.ok(rule, f"{f['name']}:all-attributes", 'every attribute of the node is examined', site)
-    rep.floor(rule, 'attribute-reading functions the property depends on', n, floor)
+    # with `keys` the coverage requirement is per key (checked above: every key has a reader); the count is informational
+    rep.floor(rule, 'attribute-reading functions the property depends on', n, 1 if keys else floor)
 
 
 FIELD_CONSUMERS = ('parse_struct', 'parse_enum_variant')
